@@ -38,6 +38,7 @@ type c08Case struct {
 }
 
 type c08Rig struct {
+	homeDir string
 	sensor sensors.Sensor
 	path   string // file or script state
 	kind   string
@@ -45,31 +46,33 @@ type c08Rig struct {
 }
 
 func newC08Rig(ctx *Ctx, kind string) *c08Rig {
-	d := installDriver()
+	installDriver()
 	dir := ctx.Path(uniqueId("c08"))
 	_ = os.MkdirAll(dir, 0755)
 	rig := &c08Rig{kind: kind, dir: dir}
 	switch kind {
 	case "hwmon":
 		rig.path = filepath.Join(dir, "temp1_input")
-		d.Mem[rig.path] = "0"
+		_ = os.WriteFile(rig.path, []byte("0\n"), 0644)
 		s, _ := sensors.NewSensor(configuration.SensorConfig{ID: uniqueId("c08s"), HwMon: &configuration.HwMonSensorConfig{Platform: "x", Index: 1, TempInput: rig.path}})
 		rig.sensor = s
 	case "file":
 		rig.path = filepath.Join(dir, "temp")
-		d.Mem[rig.path] = "0"
+		_ = os.WriteFile(rig.path, []byte("0\n"), 0644)
 		s, _ := sensors.NewSensor(configuration.SensorConfig{ID: uniqueId("c08s"), File: &configuration.FileSensorConfig{Path: rig.path}})
 		rig.sensor = s
 	case "file-home":
-		// the documented "~" form of a file sensor path; the file lives in the virtual driver only (nothing is
-		// created in the home directory)
+		// the documented "~" form of a file sensor path; a scratch directory is created in the home directory and
+		// removed again when the rig is closed
 		home := "/root"
 		if u, err := user.Current(); err == nil {
 			home = u.HomeDir
 		}
-		rel := uniqueId(".fan2go-verif-c08") + "/temp"
+		rel := fmt.Sprintf("%s-%d-%d/temp", uniqueId(".fan2go-verif-c08"), os.Getpid(), ctx.Batch)
 		rig.path = filepath.Join(home, rel)
-		d.Mem[rig.path] = "0"
+		rig.homeDir = filepath.Dir(rig.path)
+		_ = os.MkdirAll(rig.homeDir, 0755)
+		_ = os.WriteFile(rig.path, []byte("0\n"), 0644)
 		s, _ := sensors.NewSensor(configuration.SensorConfig{ID: uniqueId("c08s"), File: &configuration.FileSensorConfig{Path: "~/" + rel}})
 		rig.sensor = s
 	case "cmd":
@@ -84,8 +87,10 @@ func newC08Rig(ctx *Ctx, kind string) *c08Rig {
 }
 
 func (rig *c08Rig) close() {
-	delete(driver.Mem, rig.path)
 	_ = os.RemoveAll(rig.dir)
+	if rig.homeDir != "" {
+		_ = os.RemoveAll(rig.homeDir)
+	}
 }
 
 func fmtReading(kind string, v float64) string {
@@ -124,9 +129,15 @@ func (rig *c08Rig) present(e c08Elem) {
 		_ = os.WriteFile(rig.path+".sleep", []byte(slp+"\n"), 0644)
 		return
 	}
+	put := func(content string) { _ = os.WriteFile(rig.path, []byte(content), 0644) }
 	switch e.Kind {
 	case "ok":
-		d.Mem[rig.path] = fmtReading(rig.kind, e.Val) + "\n"
+		txt := fmtReading(rig.kind, e.Val)
+		if e.Val >= 0 && int64(e.Val)%3 == 0 {
+			// sysfs-style attributes may be zero padded or carry surrounding blanks; the value is decimal
+			txt = " 0" + txt + " "
+		}
+		put(txt + "\n")
 	case "missing":
 		d.Rules = []*util.VerifRule{{Path: rig.path, Op: "r", Action: "fail", Errno: "ENOENT"}}
 	case "eio":
@@ -134,9 +145,19 @@ func (rig *c08Rig) present(e c08Elem) {
 	case "eacces":
 		d.Rules = []*util.VerifRule{{Path: rig.path, Op: "r", Action: "fail", Errno: "EACCES"}}
 	case "empty":
-		d.Mem[rig.path] = ""
+		put("")
 	case "nonnumeric":
-		d.Mem[rig.path] = "4x2\n"
+		put("4x2\n")
+	case "prefix-garbage":
+		put("7 garbage\n")
+	case "unit-suffix":
+		put("3.3V\n")
+	case "exponent":
+		put("1e5\n")
+	case "torn-write":
+		put("6\x001000\n")
+	case "hex":
+		put("0x10\n")
 	}
 }
 
@@ -228,7 +249,7 @@ func c08Kinds(sensor string) []string {
 	if sensor == "cmd" {
 		return []string{"ok", "ok", "exit1", "garbage", "nan", "inf", "-inf", "empty"}
 	}
-	return []string{"ok", "ok", "missing", "empty", "nonnumeric", "eio", "eacces"}
+	return []string{"ok", "ok", "missing", "empty", "nonnumeric", "eio", "eacces", "prefix-garbage", "unit-suffix", "exponent", "torn-write", "hex"}
 }
 
 func c08Val(r *rand.Rand, sensor string) float64 {
